@@ -2403,8 +2403,32 @@ def _generate_action_event_from_actionable_element(
     ), f"Cannot create an event from a non actionable flow element {element}!"
 
     if isinstance(element, SpecOp) and element.op == "send":
-        event = get_event_from_element(state, flow_state, element)
-        umim_event = _generate_umim_event(state, event)
+        try:
+            event = get_event_from_element(state, flow_state, element)
+            umim_event = _generate_umim_event(state, event)
+        except Exception as e:
+            # The event could not be created (e.g. invalid arguments like a `None` script):
+            # only this flow fails, like for any other runtime error raised while advancing it.
+            source_line = "unknown"
+            if hasattr(element, "_source") and element._source:
+                source_line = str(element._source.line)
+            log.warning(
+                "Flow '%s' failed on line %s due to Colang runtime exception: %s",
+                flow_state.flow_id,
+                source_line,
+                e,
+                exc_info=True,
+            )
+            colang_error_event = Event(
+                name="ColangError",
+                arguments={
+                    "type": str(type(e).__name__),
+                    "error": str(e),
+                },
+            )
+            _push_internal_event(state, colang_error_event)
+            _abort_flow(state, flow_state, head.matching_scores)
+            return
         if isinstance(event, ActionEvent):
             event.action_uid = umim_event["action_uid"]
             assert isinstance(element.spec, Spec)
